@@ -383,6 +383,11 @@ func diffKeys(before, after []string) []string {
 
 func keyClass(k string) string {
 	parts := strings.Split(k, "/")
+	for i, p := range parts {
+		if len(p) >= 16 && maskRun.MatchString(p) { // uuids, salted ids, accessors: not part of a signature
+			parts[i] = "#"
+		}
+	}
 	if len(parts) > 2 && parts[0] == "namespaces" {
 		parts = append([]string{"namespaces", "#"}, parts[2:]...)
 		if len(parts) > 4 {
